@@ -12,6 +12,7 @@ import (
 	"fmt"
 	"io/ioutil"
 	"os"
+	"runtime"
 	"strconv"
 	"sync"
 	"testing"
@@ -382,6 +383,87 @@ func TestVerifC18(t *testing.T) {
 	}
 	ob, _ := json.Marshal(out)
 	if err := ioutil.WriteFile(outPath, ob, 0644); err != nil {
+		t.Fatal(err)
+	}
+}
+
+// ------------------------------------------------------------------ coincidence of a time-out and a freed slot
+//
+// One slot, a holder whose inner call ends 0.15 - 1.5 ms before a waiter's deadline and whose goroutine
+// then keeps the only processor busy for 3 ms (GOMAXPROCS 1): when the waiter runs again both its cases are
+// ready -- the slot and the time-out.  Whichever it takes, afterwards the limiter must be whole: a probe
+// request to the idle limiter has to be admitted (Limiter.v: permits + running = max in every reachable state).
+
+type c18CoinOut struct {
+	Trials      int      `json:"trials"`
+	ProbeDenied int      `json:"probe_denied"` // trials after which the idle limiter refused the probe
+	WaiterGot   int      `json:"waiter_got_slot"`
+	WaiterTimed int      `json:"waiter_timed_out"`
+	Notes       []string `json:"notes,omitempty"`
+}
+
+func TestVerifC18Coincide(t *testing.T) {
+	outPath := os.Getenv("VERIF_OUT")
+	if outPath == "" {
+		t.Skip("VERIF_OUT not set")
+	}
+	trials, _ := strconv.Atoi(os.Getenv("VERIF_TRIALS"))
+	if trials <= 0 {
+		trials = 30
+	}
+	old := runtime.GOMAXPROCS(1)
+	defer runtime.GOMAXPROCS(old)
+	var out c18CoinOut
+	out.Trials = trials
+	timeout := 25 * time.Millisecond
+	for k := 0; k < trials; k++ {
+		dl := make(chan time.Time, 1)
+		inside := make(chan struct{})
+		inner := ClientFn(func(cmd *RpmCmd, cs RpmControls) RPMResponse {
+			if cmd.Name == "holder" {
+				close(inside)
+				d := <-dl // the waiter's deadline
+				lead := time.Duration(150*(1+k%10)) * time.Microsecond // 150 us .. 1.5 ms before the deadline
+				if w := time.Until(d) - lead; w > 0 {
+					time.Sleep(w)
+				}
+			}
+			return RPMResponse{StatusCode: 200}
+		})
+		c := NewLimitClient(inner, 1, timeout)
+		var wg sync.WaitGroup
+		wg.Add(1)
+		go func() {
+			defer wg.Done()
+			c.Execute(&RpmCmd{Name: "holder"}, RpmControls{})
+			// stay on the only processor while the waiter's timer expires
+			for end := time.Now().Add(3 * time.Millisecond); time.Now().Before(end); {
+			}
+		}()
+		<-inside
+		dl <- time.Now().Add(timeout)
+		var wresp RPMResponse
+		wg.Add(1)
+		go func() {
+			defer wg.Done()
+			wresp = c.Execute(&RpmCmd{Name: "waiter"}, RpmControls{})
+		}()
+		wg.Wait()
+		if wresp.Err == nil {
+			out.WaiterGot++
+		} else {
+			out.WaiterTimed++
+		}
+		probe := c.Execute(&RpmCmd{Name: "probe"}, RpmControls{})
+		if probe.Err != nil {
+			out.ProbeDenied++
+			if len(out.Notes) < 3 {
+				out.Notes = append(out.Notes, fmt.Sprintf("trial %d: waiter: %v; probe to the idle limiter: %v", k, wresp.Err, probe.Err))
+			}
+		}
+	}
+	b, _ := json.Marshal(out)
+	if err := ioutil.WriteFile(outPath, b, 0644); err != nil {
 		t.Fatal(err)
 	}
 }
